@@ -23,6 +23,7 @@ processes the completion" (the F11 repair); theorems that do not mention a value
 * `no_lost_check`: the refinement never blinds the detector.
 -/
 import Arca.Proofs.PluginState
+import Arca.Props.C09Progress
 import Arca.Gen.Skel
 
 namespace Arca.Props.C09
